@@ -536,6 +536,17 @@ class Interp(object):
             return getattr(base, attr)
         if isinstance(base, EnumVal) and attr == "value":
             return base.value
+        if isinstance(base, EnumVal) and attr == "name":
+            return base.name
+        if isinstance(base, EnumVal) and base.mod:
+            m = self.repo.module(base.mod)
+            cls = m.classes.get(base.cls)
+            if cls is not None:
+                for node in cls.body:
+                    if isinstance(node, ast.FunctionDef) and node.name == attr:
+                        bm = BoundMethod(base, attr)
+                        bm.func = FuncVal(node, Env(module=m), m, "%s.%s.%s" % (m.name, base.cls, attr))
+                        return bm
         if isinstance(base, (PyList, PyDict, PySet, str, StrSeq, tuple, SymSeq, FuncVal, GenVal)):
             return BoundMethod(base, attr)
         if self.externals is not None:
